@@ -187,7 +187,7 @@ def main(argv=None):
     for v in known_v:
         if v['key'] not in seen:
             seen.add(v['key'])
-            print('KNOWN-FINDING: property=%s %s: %s' % (prop, v['key'], v['what']))
+            print('KNOWN-FINDING: property=%s %s: %s' % (prop, v['key'], ' '.join(str(v['what']).split())[:400]))
     for i, v in enumerate(new_v):
         path = write_replay(prop, v, i)
         v['replay_file'] = path
@@ -195,7 +195,7 @@ def main(argv=None):
         if v.get('decider') == 'pyvc' and not v.get('input'):
             tail = ' no-failing-input-found'
         print('VIOLATION property=%s replay=%s obligation=%s :: %s%s'
-              % (prop, path, v['obligation'], str(v['what'])[:300], tail))
+              % (prop, path, v['obligation'], ' '.join(str(v['what']).split())[:300], tail))
 
     # ---- evidence -----------------------------------------------------------
     bounded = [b for r in dres for b in r['bounded']]
